@@ -11,6 +11,13 @@ pub fn apply(region: &[u8], d: &Value) -> Vec<u8> {
         "set16le" => { if off + 1 < b.len() { b[off] = v as u8; b[off + 1] = (v >> 8) as u8; } }
         "set16be" => { if off + 1 < b.len() { b[off] = (v >> 8) as u8; b[off + 1] = v as u8; } }
         "set32le" => { if off + 3 < b.len() { if let Some(x) = d.get("b").and_then(|x| x.as_array()) { for k in 0..4 { b[off + k] = x[k].as_u64().unwrap_or(0) as u8; } } } }
+        // replace `del` bytes at `at` by `bytes` (re-encoding of a length field in another form)
+        "splice" => {
+            let at = (d.get("at").and_then(|x| x.as_u64()).unwrap_or(0) as usize).min(b.len());
+            let del = (d.get("del").and_then(|x| x.as_u64()).unwrap_or(0) as usize).min(b.len() - at);
+            let ins: Vec<u8> = d.get("bytes").and_then(|x| x.as_array()).map(|a| a.iter().map(|y| y.as_u64().unwrap_or(0) as u8).collect()).unwrap_or_default();
+            b.splice(at..at + del, ins);
+        }
         "trunc" => { let at = d.get("at").and_then(|x| x.as_u64()).unwrap_or(0) as usize; b.truncate(at); }
         "append" => { if let Some(x) = d.get("bytes").and_then(|x| x.as_array()) { for y in x { b.push(y.as_u64().unwrap_or(0) as u8); } } }
         "extend" => { let n = d.get("n").and_then(|x| x.as_u64()).unwrap_or(0) as usize; for i in 1..=n { b.push(((i * 37) % 256) as u8); } }
